@@ -120,6 +120,16 @@ def evaluate(spec, hist, compare_admin=False):
                 continue
             if k == "retag":
                 continue            # display only: nothing to compare, nothing the solo run needs to know
+            if k == "reread":
+                # no solo run needed: the object must digest exactly as it did when it was returned
+                j = op["src"]
+                first = hist["results"][ti][j] if j < len(hist["results"][ti]) else None
+                if first is not None and first.get("kind") == "ok" and res.get("kind") == "ok" \
+                        and res.get("digest") != first.get("digest"):
+                    viol.append(_v("result.changed_after_return", prog[j].get("op"), spec, ti, i,
+                                   f"the {prog[j].get('op')} result returned by op {j} reads differently now: "
+                                   + _diff_detail(res, first)))
+                continue
             if k == "edit":
                 if res.get("kind") == "ok":
                     ov["edits"].append([op["kind"], op["index"], op["field"], op["value"]])
